@@ -425,6 +425,22 @@ theorem eventsPre_spec (cfg : Cfg) (n : Node) (f : Filter) (fromB toB : Nat) (to
 
 /-! ### Following the tokens into the pre-confirmed blocks -/
 
+/-- Paging starts with `ensureInit`: it is the paging on the node after `wake`. -/
+theorem collect_wake (cfg : Cfg) (f : Filter) (fromB toB chunk limit fuel : Nat) (n : Node) (tok : Option Token)
+    (h : (wake cfg n).initErr = none) :
+    collect cfg f fromB toB chunk limit fuel n tok = collect cfg f fromB toB chunk limit fuel (wake cfg n) tok := by
+  cases fuel with
+  | zero => rfl
+  | succ fuel => simp only [collect, apiEvents, wake_live cfg _ h]
+
+theorem collectPre_wake (cfg : Cfg) (f : Filter) (fromB toB chunk limit base : Nat) (pre : List Block) (fuel : Nat)
+    (n : Node) (tok : Option Token) (h : (wake cfg n).initErr = none) :
+    collectPre cfg f fromB toB chunk limit base pre fuel n tok =
+      collectPre cfg f fromB toB chunk limit base pre fuel (wake cfg n) tok := by
+  cases fuel with
+  | zero => rfl
+  | succ fuel => simp only [collectPre, apiEventsPre, wake_live cfg _ h]
+
 def ValidPre (f : Filter) (full : List Block) (fromB toB top : Nat) (tok : Option Token) : Prop :=
   skipOf tok = 0 ∨
     (selFrom f full (loOf fromB tok top) (skipOf tok) ≠ [] ∧ startOf fromB tok ≠ sentinel ∧ startOf fromB tok ≤ toB)
@@ -449,7 +465,7 @@ theorem collectPre_spec (cfg : Cfg) (f : Filter) (fromB toB chunk limit height H
   | succ fuel ih =>
     intro n tok hlen hwf hs hc hfl hv hfuel
     unfold collectPre
-    simp only [queryPre]
+    simp only [apiEventsPre, wake_live cfg n hs.live, queryPre]
     obtain ⟨hpost, hcg⟩ := eventsPre_spec cfg n f fromB toB tok chunk limit height H pre hW hchunk hlen hbase hB0 hpre hfit
       hwf hpwf hs hc hfl hv
     revert hpost
